@@ -42,10 +42,13 @@ var methodMap = map[string]string{
 	"(*sync.WaitGroup).Wait":   "WGWait",
 	"(*sync.Once).Do":          "OnceDo",
 	"(*sync.Map).Range":        "SyncMapRange",
+	"(*sync.Pool).Get":         "PoolGet",
+	"(*sync.Pool).Put":         "PoolPut",
 }
 
 var funcMap = map[string]string{
-	"time.Sleep": "Sleep",
+	"time.Sleep":         "Sleep",
+	"runtime.GOMAXPROCS": "GOMAXPROCS", // worker pool sizes must not depend on the machine: a per-run knob
 }
 
 var tokCounter int
@@ -141,6 +144,11 @@ func main() {
 			}
 			if !r.changed {
 				continue
+			}
+			for _, ip := range []string{"runtime", "time", "sync"} {
+				if !astutil.UsesImport(f, ip) {
+					astutil.DeleteImport(p.Fset, f, ip)
+				}
 			}
 			stripComments(f)
 			if usesSimrt(f) {
